@@ -26,6 +26,17 @@ Proof.
   destruct o; try reflexivity. apply IH. exact N.
 Qed.
 
+Lemma zipl_go_ext (step1 step2 : st -> it -> st * outcome) fill :
+  (forall s j, snd (step1 s j) <> NoFuel -> step2 s j = step1 s j) ->
+  forall l s vs js a, snd (zipl_go step1 fill s l vs js a) <> NoFuel ->
+                      zipl_go step2 fill s l vs js a = zipl_go step1 fill s l vs js a.
+Proof.
+  intros H l. induction l as [|[j|] r IH]; intros s vs js a N; [reflexivity| |apply IH; exact N].
+  cbn [zipl_go] in *. destruct (step1 s j) as [s1 o] eqn:E.
+  rewrite (H s j) by (rewrite E; destruct o; cbn in *; congruence). rewrite E.
+  destruct o; try reflexivity; apply IH; exact N.
+Qed.
+
 Ltac mono_inner IH d :=
   match goal with
   | H : snd _ <> NoFuel |- context [next (d + ?f) ?s ?j] =>
@@ -66,6 +77,8 @@ Proof.
   - (* SliceN *)
     destruct (n <? 0)%Z; [reflexivity|].
     apply slice_collect_ext; [|exact N]. intros s0 j0 H0. apply IH. exact H0.
+  - (* ZipLongest *)
+    apply zipl_go_ext; [|exact N]. intros s0 j0 H0. apply IH. exact H0.
 Qed.
 
 Lemma next_mono_le fuel fuel' s i : fuel <= fuel' -> snd (next fuel s i) <> NoFuel -> next fuel' s i = next fuel s i.
